@@ -46,7 +46,7 @@ X_THEOREMS = [
     'reprioritised_during_publish_keeps_order', 'start_listeners_see_STARTING_reentrant_false',
     'exit_returns_not_EXITING', 'effPrio_spec', 'cleanExit_spec', 'waitW_returns_in_target',
     'gen_states', 'gen_builtin_channels', 'gen_default_priority', 'gen_exit_code', 'gen_transitions_match',
-    'gen_priority_rows',
+    'gen_priority_rows', 'conservative', 'exitX_stop_before_exit',
 ]
 THEOREMS += ['CpProofs.C18X.' + t for t in X_THEOREMS]
 TRUSTED_BASE = [
@@ -1144,6 +1144,11 @@ def run(ctx):
         check_cases(ctx, cases[3000:], procs=16)
     missing = cov.missing()
     ctx.extra['anchored_lines_not_executed'] = missing
+    ctx.extra['anchored_lines_not_executed_why'] = {
+        'Bus.start: pass': 'handler of `except Exception` around self.exit(): exit() turns every Exception into '
+                           'os._exit(70), so nothing reaches it',
+        'Bus._do_execv: SystemRestart (2 lines)': 'Jython only (sys.platform == "java")',
+    }
     ctx.extra['anchored_functions_traced'] = sorted(set(cov.codes.values())) if cov.ok else 'sys.monitoring unavailable'
     small = list(enum_quick()) + list(enum_reentrant())
     check_cases(ctx, small, procs=16)
